@@ -158,6 +158,14 @@ KERNELS.append(dict(_TREE, name="find_sym_op_general_bin", function="find_sym_op
             ("do_symmetry_swap_segment", "Bool"), ("do_symmetry_swap_s", "Bool"), ("do_symmetry_shift_z", "Bool"), ("tz", "Int"),
             ("nppa_seg", "Int"), ("s", "Int"), ("segment_num", "Int"), ("view_num", "Int"), ("axial_pos_num", "Int")], bind=_TREE_BIND))
 
+# ---- C03: ProjMatrixByBin::cache_key (64-bit packing of the three signed coordinates; the widths are the in-class initialisers)
+KERNELS.append(dict(name="cache_key", file="recon_buildblock/ProjMatrixByBin.cxx", cls="ProjMatrixByBin", function="cache_key", mode="function",
+    params=[("ax", "Int"), ("tang", "Int"), ("tof", "Int")],
+    const_fields={"tang_pos_bits": "U64", "axial_pos_bits": "U64", "timing_pos_bits": "U64"},
+    fields_header="stir/recon_buildblock/ProjMatrixByBin.h",
+    bind={"bin.axial_pos_num()": ("param", "ax"), "bin.tangential_pos_num()": ("param", "tang"), "bin.timing_pos_num()": ("param", "tof")},
+    outputs=["$return"], ret="U64"))
+
 
 class Reject(Exception):
     """the kernel leaves the supported subset / cannot be located"""
@@ -330,6 +338,8 @@ def ctype_to_lean(qt):
         return "Int", const
     if q == ["bool"]:
         return "Bool", const
+    if q in (["std::uint64_t"], ["uint64_t"], ["unsigned", "long"], ["CacheKey"], ["stir::ProjMatrixByBin::CacheKey"], ["ProjMatrixByBin::CacheKey"]):
+        return "U64", const     # 64-bit unsigned: a Nat below 2^64, every operation reduced mod 2^64
     return None
 
 
@@ -401,7 +411,17 @@ class Translator:
 
     @staticmethod
     def as_int(e):
+        if e[1] == "U64":
+            return "(Int.ofNat %s)" % e[0], "Int"
         return e if e[1] == "Int" else ("(b2i %s)" % e[0], "Int")
+
+    @staticmethod
+    def as_u64(e):
+        if e[1] == "U64":
+            return e
+        if e[1] == "Bool":
+            return "(u64OfInt (b2i %s))" % e[0], "U64"
+        return "(u64OfInt %s)" % e[0], "U64"
 
     def check_type(self, n, got):
         """where clang knows the type of an expression it must agree with ours"""
@@ -464,6 +484,8 @@ class Translator:
                 t = ctype_to_lean(n.get("type", {}).get("qualType", ""))
                 if t is None:
                     self.reject(n, "integral cast to `%s`" % n.get("type", {}).get("qualType"))
+                if t[0] == "U64":
+                    return self.as_u64(inner)
                 return self.as_int(inner) if t[0] == "Int" else self.as_bool(inner)
             self.reject(n, "cast of kind %s" % ck)
         if k == "DeclRefExpr":
@@ -481,6 +503,8 @@ class Translator:
                 return self.use_param(n, name, rd.get("type", {}).get("qualType"))
             return self.hoist(n, rd)
         if k == "MemberExpr":
+            if ch and strip_casts(ch[0]).get("kind") == "CXXThisExpr" and n.get("name") in getattr(self, "const_fields", {}):
+                return self.const_fields[n.get("name")]
             if ch and strip_casts(ch[0]).get("kind") == "CXXThisExpr":
                 return self.use_param(n, n.get("name", "?"), n.get("type", {}).get("qualType"))
             self.reject(n, "member access that is not `this->member`")
@@ -519,6 +543,16 @@ class Translator:
         self.reject(n, "unsupported expression")
 
     def binop(self, n, op, l, r):
+        qt = ctype_to_lean(n.get("type", {}).get("qualType", "") or "")
+        if qt is not None and qt[0] == "U64":
+            a, b = self.as_u64(self.expr(l)), self.as_u64(self.expr(r))
+            if op == "+":
+                return "(u64add %s %s)" % (a[0], b[0]), "U64"
+            if op == "<<":
+                return "(u64shl %s %s)" % (a[0], b[0]), "U64"
+            if op == "|":
+                return "(%s ||| %s)" % (a[0], b[0]), "U64"
+            self.reject(n, "binary operator `%s` on 64-bit unsigned operands" % op)
         if op in ("+", "-", "*", "/", "%"):
             a, b = self.as_int(self.expr(l)), self.as_int(self.expr(r))
             if op == "/":
@@ -618,7 +652,7 @@ class Translator:
         return out
 
     def conv(self, e, ty):
-        return (self.as_int if ty == "Int" else self.as_bool)(e)[0]
+        return (self.as_int if ty == "Int" else self.as_u64 if ty == "U64" else self.as_bool)(e)[0]
 
     def stmt(self, n, ind):
         k = n.get("kind")
@@ -765,7 +799,7 @@ class Translator:
             else:
                 cur = ([lean_ident(p)], t)
                 groups.append(cur)
-        return "def %s %s : %s :=" % (self.spec["name"], " ".join("(%s : %s)" % (" ".join(g), t) for g, t in groups), self.out_type())
+        return ("def %s %s : %s :=" % (self.spec["name"], " ".join("(%s : %s)" % (" ".join(g), t) for g, t in groups), self.out_type())).replace("U64", "Nat")
 
     def translate_body(self, nodes):
         body = []
@@ -847,6 +881,18 @@ def find_all(n, kind, acc):
 def translate_kernel(spec, docs, field_docs, repo):
     fn = find_function(docs, spec, repo)
     tr = Translator(spec, fn, "src/" + spec["file"], repo)
+    tr.const_fields = {}
+    for fld, lty in spec.get("const_fields", {}).items():
+        # `const T name = <integer literal>;` data member with an in-class initialiser (no constructor of the class may override it:
+        # not checked here, the correspondence run covers it)
+        fds = [d for d in field_docs if d.get("kind") == "FieldDecl" and d.get("name") == fld]
+        ok = len(fds) == 1 and fds[0].get("hasInClassInitializer") and "const" in fds[0].get("type", {}).get("qualType", "")
+        lit = strip_casts(kids(fds[0])[0]) if ok and kids(fds[0]) else {}
+        while lit.get("kind") in ("ImplicitCastExpr", "CXXStaticCastExpr", "ConstantExpr") and kids(lit):
+            lit = strip_casts(kids(lit)[0])
+        if not ok or lit.get("kind") != "IntegerLiteral":
+            raise Reject("kernel %s: field %s::%s is not a `const` member with an integer-literal in-class initialiser" % (spec["name"], spec["cls"], fld))
+        tr.const_fields[fld] = (str(int(lit["value"])), lty)
     body = [c for c in kids(fn) if c.get("kind") == "CompoundStmt"][0]
     mode = spec["mode"]
     if mode == "function":
@@ -932,6 +978,15 @@ def shr (x : Int) (k : Nat) : Int := Int.fdiv x (2 ^ k)
 
 /-- `std::abs(int)` -/
 def iabs (x : Int) : Int := if x < 0 then -x else x
+
+/-- conversion of an `int` to `std::uint64_t` (wraps modulo 2^64) -/
+def u64OfInt (x : Int) : Nat := (x % 18446744073709551616).toNat
+
+/-- `a << s` on `std::uint64_t` (the bits shifted out are lost) -/
+def u64shl (a s : Nat) : Nat := (a <<< s) % 18446744073709551616
+
+/-- `a + b` on `std::uint64_t` -/
+def u64add (a b : Nat) : Nat := (a + b) % 18446744073709551616
 
 /-- `bool` -> `int` conversion -/
 def b2i (b : Bool) : Int := if b then 1 else 0
